@@ -846,7 +846,8 @@ class C13(Prop):
             "executions counted separately as schedules_executed); non-trivial = at least one pre-emption; plus (oracle only) "
             "virtual-time scenarios under harness/vsim.py: a callback inside one call for 10 s … 1 h while stop() is called, "
             "immediate restart, controller thread named like the worker")
-    assumptions = ["threading.Thread.start/join/is_alive and threading.Event behave as documented (the scheduler's "
+    assumptions = ["a callback counts as given iff it is TRUTHY (`if self._init:` / `if self._final:` in thread.py): a callable object whose `__bool__` is False is never called; the model's hasInit / hasFinal mean truthy (second review, R4-D-G1)",
+                   "threading.Thread.start/join/is_alive and threading.Event behave as documented (the scheduler's "
                    "shims implement the documented behaviour on real OS threads; CPython's own implementation of "
                    "them is not exercised)",
                    "the callbacks are opaque, atomic and do not touch the ThreadCommon object",
